@@ -11,12 +11,16 @@ pub fn runs(property: &str, tier: Tier) -> u64 {
     if property == "C32" {
         return crate::engf::n_cases(tier == Tier::Thorough)
     }
+    if property == "C29" {
+        return crate::engb::c29_cells().len() as u64
+    }
     let (quick, thorough) = match property {
         "C01" | "C02" | "C03" | "C04" | "C05" | "C06" | "C08" | "C09"
-        | "C10" | "C39" | "C31" => (480, 12000),
+        | "C10" | "C39" | "C31" | "C22" | "C34" => (480, 12000),
         "C38" => (800, 20000),
         "C07" => (320, 6000),
-        "C12" | "C13" | "C14" | "C33" => (4000, 200000),
+        "C12" | "C13" | "C14" => (2400, 100000),
+        "C33" => (4000, 200000),
         "C15" | "C16" | "C17" | "C36" => (4000, 200000),
         "C37" => (1600, 40000),
         "C26" => (960, 40000),
@@ -83,7 +87,13 @@ pub fn enga_profile(property: &str, tier: Tier) -> Option<Profile> {
                 (CrlMissing, 4), (CrlWrongKey, 3), (MftStale, 3),
                 (ExpireMftEe, 2), (AddChild, 2),
             ]);
-            p.gen.ta_all_pct = 70;
+            p.gen.ta_all_pct = 100;
+            p.gen.wide_children = true;
+            p.gen.max_depth = 1;
+            p.gen.max_cas = 10;
+            p.gen.max_tals = 3;
+            p.gen.max_objs = 5;
+            p.ops_per_step = 5;
             p.stale = Some(Policy::Reject);
             p.big_jumps = false;
         }
@@ -91,6 +101,7 @@ pub fn enga_profile(property: &str, tier: Tier) -> Option<Profile> {
             only(&mut p, &[
                 (AddObj, 12), (RemoveObj, 4), (Touch, 3), (Revoke, 3),
                 (SigFaultObj, 2), (AddChild, 3), (MftWrongKey, 2),
+                (BigAspa, 2), (AspaChange, 2),
             ]);
             p.slurm = true;
             p.gen.ta_all_pct = 60;
@@ -100,7 +111,7 @@ pub fn enga_profile(property: &str, tier: Tier) -> Option<Profile> {
         }
         "C10" => {
             only(&mut p, &[
-                (AddObj, 5), (Touch, 4), (TaFault, 14), (RsyncFail, 2),
+                (AddObj, 5), (Touch, 4), (TaFault, 14), (TalRekey, 4), (RsyncFail, 2),
                 (RrdpFail, 1),
             ]);
             p.focus = Some("C10");
@@ -117,6 +128,38 @@ pub fn enga_profile(property: &str, tier: Tier) -> Option<Profile> {
             p.allow_dubious_pct = 35;
             p.big_jumps = false;
             p.steps = 3;
+        }
+        "hist-aspa" => {
+            only(&mut p, &[
+                (AspaChange, 14), (AddObj, 4), (RemoveObj, 3), (Touch, 3),
+                (RsyncFail, 1),
+            ]);
+            p.via_server = true;
+            p.random_cfg = false;
+            p.gen.max_tals = 1;
+            p.gen.max_cas = 3;
+            p.big_jumps = false;
+            p.quiet_pct = 10;
+            p.steps = if tier == Tier::Thorough { 14 } else { 8 };
+        }
+        "C22" => {
+            only(&mut p, &[
+                (AddObj, 5), (Touch, 4), (RsyncFail, 8), (RrdpFail, 8),
+                (MftGarbage, 3), (CrlMissing, 3), (HashMismatch, 3),
+                (SigFaultObj, 3), (TaFault, 3), (AddChild, 2),
+            ]);
+            p.via_server = true;
+            p.hostile_labels = true;
+            p.steps = 3;
+        }
+        "C34" => {
+            only(&mut p, &[
+                (AddObj, 8), (Touch, 6), (TimeFaultObj, 2), (RemoveObj, 3),
+                (AddChild, 2), (RsyncFail, 1),
+            ]);
+            p.via_server = true;
+            p.refresh_swarm = true;
+            p.steps = 4;
         }
         "C38" => {
             only(&mut p, &[(AddObj, 8), (Touch, 2), (AddChild, 4)]);
@@ -158,6 +201,18 @@ pub fn describe(property: &str) -> Option<serde_json::Value> {
             "C10" => "payload under a TAL iff a matching valid TA certificate \
                       (fresh or stored) exists; stored TA never replaced by \
                       undecodable bytes",
+            "C22" => "after every update cycle of the server (real \
+                      process_once) with hostile text in rsync output, RRDP \
+                      failures and TAL labels (quotes, backslashes, tabs, \
+                      newlines, ESC, NUL, non-ASCII), /api/v1/status parses \
+                      as JSON and /metrics satisfies the Prometheus text \
+                      exposition grammar",
+            "C34" => "after every successful update cycle at simulated time \
+                      t, refresh_wait() lies in [min-refresh or refresh, \
+                      max(refresh, min-refresh)] and equals max(expiry - t, \
+                      min-refresh) when min-refresh is set and the data set \
+                      expires before t + refresh; refresh in {1,10,600,86400}, \
+                      min-refresh in {unset,1,60,600,7200}",
             "C31" => "transport log invariant: with allow-dubious-hosts off \
                       no fake-rsync invocation and no simulated HTTPS request \
                       targets localhost, an IP literal or an explicit port \
@@ -264,6 +319,31 @@ pub fn describe(property: &str) -> Option<serde_json::Value> {
             "assumptions": [
                 "a view is self-consistent unless the injected fault says otherwise",
                 "rsync disabled so that 'not updated' means no data is handed out",
+            ],
+        }))
+    }
+    if property == "C29" {
+        return Some(json!({
+            "engine": "B (collector level): real Collector::start().repository() \
+                       with simulated RRDP server and fake rsync",
+            "level": "fault_enumeration",
+            "exhaustive": true,
+            "shrink": false,
+            "rule": "The full product fallback policy {never, stale, new} x \
+                     RRDP outcome {updated, current, stale, unavailable} x \
+                     rrdp {on, off} x rsync {on, off} x CA {with, without} \
+                     rpkiNotify = 96 cells, each executed once. Outcomes are \
+                     produced, not asserted: server fine; server failing \
+                     (503) with a local copy made 10 s earlier (current) or \
+                     10 days earlier (expired, simulated clock); server \
+                     failing without a copy. Observed: whether the fake \
+                     rsync was invoked for the CA's module and which kind of \
+                     repository repository() hands out. Oracle: the table \
+                     in the property. Every cell is distinct; non-trivial = \
+                     all (each exercises the decision).",
+            "assumptions": [
+                "the copy's best-before lies in [refresh, max(2*refresh, \
+                 fallback-time)) = [600 s, 3600 s): 10 s is before, 10 days after",
             ],
         }))
     }
